@@ -41,6 +41,25 @@ const baseLang = 1 // eng
 // stale entry, e.g. left behind when the base language was switched) which must never win over the base text
 var trLangs = []int{2, 3, 1}
 
+// a URL that is one byte too long to be carried as the attachment "audio:<url>" (flows.MaxAttachmentLength = 2048)
+func longURL(prefix string) string { return prefix + strings.Repeat("a", 2043-len(prefix)) }
+
+// play_audio's base audio URL
+func (c *config) playURL() string {
+	if c.LongAudio == 1 {
+		return longURL("http://x.io/play/")
+	}
+	return basePlayURL
+}
+
+// the attachment rule as the statement has it: a URL that doesn't fit into an attachment isn't sent
+func keepAudio(u string) string {
+	if len("audio:"+u) > 2048 {
+		return ""
+	}
+	return u
+}
+
 func code(l int) i18n.Language { return i18n.Language(langCodes[l]) }
 
 func langIndex(c string) int {
@@ -126,6 +145,11 @@ type config struct {
 	// every non-empty text of the send_msg/send_broadcast action (base and translations) is replaced by an expression
 	// that evaluates to "": the created message is text-less although its definition has a text
 	EvalEmpty bool     `json:"text_evaluates_to_empty"`
+	// 1: play_audio's base URL, 2: say_msg's base audio URL is too long to be an attachment ("audio:"+url > 2048 bytes)
+	LongAudio int `json:"long_audio"`
+	// some translated attachments are not attachments ("nope…") and some translated quick replies evaluate to "":
+	// they are left out of the message after the choice is made, and the locale is decided on what is left
+	Filter bool `json:"unsendable_parts"`
 	BaseVars  []string `json:"template_variables"`
 	Tr          map[string][][]string `json:"translations"` // prop -> per language index 2,3 and 1 (= the base language itself: a stale entry) -> stored (nil absent)
 	States      map[string][3]int   `json:"states"`
@@ -282,7 +306,7 @@ func buildAssets(c *config) []byte {
 		"localization": vloc,
 		"nodes": []any{map[string]any{
 			"uuid": voiceNodeUUID,
-			"actions": []any{say, map[string]any{"uuid": playUUID, "type": "play_audio", "audio_url": basePlayURL}},
+			"actions": []any{say, map[string]any{"uuid": playUUID, "type": "play_audio", "audio_url": c.playURL()}},
 			"exits":   []any{map[string]any{"uuid": exitVoiceUUID}},
 		}},
 	}
@@ -459,6 +483,9 @@ func run(c *config) (*observed, error) {
 			o.Email = &[2]string{ev.Subject, ev.Body}
 		case *events.ErrorEvent:
 			// the only action of this flow that can complain is send_email (empty subject or body: skipped)
+			if c.Filter && (strings.Contains(ev.Text, "attachment evaluated to invalid") || strings.Contains(ev.Text, "quick reply evaluated to empty")) {
+				continue
+			}
 			if !strings.Contains(ev.Text, "email") {
 				return nil, fmt.Errorf("error event: %s", ev.Text)
 			}
@@ -531,7 +558,7 @@ func runVoice(c *config, env envs.Environment, sa flows.SessionAssets, eng flows
 				return fmt.Errorf("unknown ivr locale %q", ev.Msg.Locale())
 			}
 			// which action: play_audio's URLs are recognisable (base .../play.mp3, translations .../p…)
-			if m.Text == "" && (m.Audio == basePlayURL || strings.HasPrefix(m.Audio, "http://x.io/pp")) {
+			if m.Text == "" && (m.Audio == c.playURL() || strings.HasPrefix(m.Audio, "http://x.io/pp")) {
 				if o.Play != nil {
 					return fmt.Errorf("two play_audio messages")
 				}
@@ -553,7 +580,8 @@ func runVoice(c *config, env envs.Environment, sa flows.SessionAssets, eng flows
 	if o.Play == nil {
 		missing++
 	}
-	if nerr != missing {
+	// say_msg whose audio URL is too long reports that and goes on with its text
+	if nerr != missing && !(c.LongAudio == 2 && nerr == missing+1) {
 		return fmt.Errorf("voice flow: %d error events, %d skipped actions", nerr, missing)
 	}
 	return nil
@@ -612,6 +640,22 @@ func (c *config) effLang() int {
 	return c.ContactLang
 }
 
+// what is left of a chosen list in the message as created: values that aren't attachments and quick replies that
+// evaluate to "" are not sent (only the Filter configurations have such values)
+func sendable(prop string, arr []string) []string {
+	if prop != "attachments" && prop != "quick_replies" {
+		return arr
+	}
+	out := make([]string, 0, len(arr))
+	for _, a := range arr {
+		if (prop == "attachments" && strings.HasPrefix(a, "nope")) || (prop == "quick_replies" && a == emptyExpr) {
+			continue
+		}
+		out = append(out, a)
+	}
+	return out
+}
+
 func nonEmpty(arr []string) bool { return arr != nil && len(arr) > 0 && !(len(arr) == 1 && arr[0] == "") }
 
 // pick returns what the statement prescribes for one property: value and language used
@@ -621,6 +665,11 @@ func pick(c *config, prop string, native []string) ([]string, int) {
 
 // the same for a contact of language cl
 func pickL(c *config, cl int, prop string, native []string) ([]string, int) {
+	a, l := pickRaw(c, cl, prop, native)
+	return sendable(prop, a), l
+}
+
+func pickRaw(c *config, cl int, prop string, native []string) ([]string, int) {
 	var cands []int
 	if cl != 0 {
 		for _, a := range c.Allowed {
@@ -672,10 +721,10 @@ func locLangs(c *config) []int {
 func pickFor(c *config, prop string, native []string, l int) []string {
 	if l != baseLang && (l == 2 || l == 3) {
 		if arr := c.Tr[prop][l-2]; nonEmpty(arr) {
-			return arr
+			return sendable(prop, arr)
 		}
 	}
-	return native
+	return sendable(prop, native)
 }
 
 func eqs(a, b []string) bool {
@@ -799,6 +848,7 @@ func oracle(c *config, o *observed, res *hx.Result) {
 		st = ""
 	}
 	sa, sal := first("say_audio", c.BaseAudio)
+	sa = keepAudio(sa)
 	if st == "" {
 		// a message without text is in the language of its attachment (the audio URL)
 		stl = sal
@@ -819,7 +869,8 @@ func oracle(c *config, o *observed, res *hx.Result) {
 		}
 	}
 	// play_audio: a text-less message; the locale names the language of its attachment
-	pa, pal := first("play_audio", basePlayURL)
+	pa, pal := first("play_audio", c.playURL())
+	pa = keepAudio(pa)
 	switch {
 	case pa == "":
 		if o.Play != nil {
@@ -950,7 +1001,7 @@ func caseCoq(c *config, o *observed) string {
 		"     k_tr_text := %s; k_tr_atts := %s; k_tr_qrs := %s; k_tr_args := %s; k_tr_name := %s; k_tr_cat := %s;\n"+
 		"     k_o_text := %s; k_o_atts := %s; k_o_qrs := %s; k_o_lang := %s; k_o_setres := %s; k_o_matched := %s; k_o_catl := %s;\n"+
 		"     k_loc_langs := %s; k_o_bcast := %s;\n"+
-		"     k_audio := %s; k_tr_subject := %s; k_tr_body := %s; k_tr_say_text := %s; k_tr_say_audio := %s; k_tr_play_audio := %s;\n"+
+		"     k_audio := %s; k_play := %s; k_tr_subject := %s; k_tr_body := %s; k_tr_say_text := %s; k_tr_say_audio := %s; k_tr_play_audio := %s;\n"+
 		"     k_eval_empty := %s; k_tvars := %s; k_tr_tvars := %s; k_o_tvars := %s;\n"+
 		"     k_o_forc := %s; k_o_forc_lang := %s;\n"+
 		"     k_o_email := %s; k_o_say := %s; k_o_play := %s |}",
@@ -960,7 +1011,7 @@ func caseCoq(c *config, o *observed) string {
 		hx.List(locLangs(c), hx.N), hx.List(o.Bcast, func(b bcastTr) string {
 			return fmt.Sprintf("(%s, (%s, (%s, %s)))", hx.N(b.Lang), hx.Str(b.Text), hx.List(b.Atts, hx.Str), hx.List(b.QRs, hx.Str))
 		}),
-		hx.Str(c.BaseAudio), trCoq(c, "subject"), trCoq(c, "body"), trCoq(c, "say_text"), trCoq(c, "say_audio"), trCoq(c, "play_audio"),
+		hx.Str(c.BaseAudio), hx.Str(c.playURL()), trCoq(c, "subject"), trCoq(c, "body"), trCoq(c, "say_text"), trCoq(c, "say_audio"), trCoq(c, "play_audio"),
 		hx.Bool(c.EvalEmpty), hx.List(c.BaseVars, hx.Str), trCoq(c, "template_variables"), hx.List(o.TplVars, hx.Str),
 		hx.List(o.ForContact, func(b bcastTr) string {
 			return fmt.Sprintf("(%s, (%s, (%s, %s)))", hx.N(b.Lang), hx.Str(b.Text), hx.List(b.Atts, hx.Str), hx.List(b.QRs, hx.Str))
@@ -1031,6 +1082,14 @@ func main() {
 						c.BaseAudio = "http://x.io/base.mp3"
 					}
 					c.EvalEmpty = k%7 == 5
+					switch k % 11 {
+					case 4:
+						c.LongAudio = 1
+					case 8:
+						c.LongAudio = 2
+						c.BaseAudio = longURL("http://x.io/say/")
+					}
+					c.Filter = k%13 == 7
 					c.BaseVars = []string{"v1", "v2"}
 					c.BaseArgs = []string{"1", "10"}
 					if k%3 == 1 {
@@ -1074,6 +1133,24 @@ func main() {
 							fix(a2, k%2 == 0)
 							fix(a3, k%5 != 0)
 							fix(ab, k%3 == 1) // stale base-language arguments: the opposite of the base arguments' outcome
+						}
+						if c.Filter {
+							switch p.name {
+							case "attachments":
+								if len(a2) > 0 && a2[0] != "" {
+									a2[0] = "nope0"
+								}
+								if k%2 == 0 && len(a3) > 1 {
+									a3[1] = "nope1"
+								}
+							case "quick_replies":
+								if len(a3) > 0 && a3[0] != "" {
+									a3[0] = emptyExpr
+								}
+								if k%2 == 0 && len(a2) > 0 && a2[0] != "" {
+									a2[0] = emptyExpr
+								}
+							}
 						}
 						c.Tr[p.name] = [][]string{a2, a3, ab}
 					}
